@@ -925,6 +925,14 @@ func (c *Conn) dispatch(fr *FrameHeader) bool {
 // response on the connection decoding to the wrong fields. It reports whether
 // the read loop should stop.
 func (c *Conn) discardHeaders(fr *FrameHeader) bool {
+	// DATA for a request that has gone still used the connection window, which
+	// every other response on the connection shares.
+	if fr.Type() == FrameData {
+		c.consumeConnWindow(fr.Len())
+
+		return false
+	}
+
 	if fr.Type() != FrameHeaders && fr.Type() != FrameContinuation {
 		return false
 	}
@@ -1539,27 +1547,36 @@ func (c *Conn) readStream(fr *FrameHeader, res *fasthttp.Response) (err error) {
 		err = NewResetStreamError(
 			fr.Body().(*RstStream).Code(), "stream reset by the server")
 	case FrameData:
-		c.currentWindow -= int32(fr.Len())
-		currentWin := c.currentWindow
-
 		data := fr.Body().(*Data)
 		if data.Len() != 0 {
 			res.AppendBody(data.Data())
+		}
 
-			// let's send the window update
+		// The whole payload counts against the stream window, padding and all
+		// (RFC 7540 6.1), so a frame that carries nothing but padding has to be
+		// handed back as well.
+		if fr.Len() != 0 {
 			c.updateWindow(fr.Stream(), fr.Len())
 		}
 
-		if currentWin < c.maxWindow/2 {
-			nValue := c.maxWindow - currentWin
-
-			c.currentWindow = c.maxWindow
-
-			c.updateWindow(0, int(nValue))
-		}
+		c.consumeConnWindow(fr.Len())
 	}
 
 	return err
+}
+
+// consumeConnWindow accounts for DATA received on the connection window and
+// tops the window up once it has fallen below half.
+func (c *Conn) consumeConnWindow(n int) {
+	c.currentWindow -= int32(n)
+
+	if c.currentWindow < c.maxWindow/2 {
+		inc := c.maxWindow - c.currentWindow
+
+		c.currentWindow = c.maxWindow
+
+		c.updateWindow(0, int(inc))
+	}
 }
 
 func (c *Conn) updateWindow(streamID uint32, size int) {
